@@ -257,8 +257,43 @@ func largeDocs() []corpus.Doc {
 	return out
 }
 
+// lineEndDocs: the small text documents with unusual line-end sequences (what a second text-mode conversion or a
+// careless editor leaves): CR CR LF, LF CR, a mix of all three kinds, a CR as the very last byte. Whatever such a
+// document denotes, it must denote the same under every delivery schedule.
+func lineEndDocs() []corpus.Doc {
+	var out []corpus.Doc
+	for _, d := range corpus.Small() {
+		if !d.Valid || !strings.HasSuffix(d.Name, "-lf") && d.Name != "vtt-full" && d.Name != "ssa-small" {
+			continue
+		}
+		src := string(d.Data)
+		mixed := func() string {
+			var b strings.Builder
+			k := 0
+			for _, ch := range src {
+				if ch == '\n' {
+					b.WriteString([]string{"\r\n", "\n", "\r", "\r\r\n", "\n\r"}[k%5])
+					k++
+				} else {
+					b.WriteRune(ch)
+				}
+			}
+			return b.String()
+		}()
+		for _, v := range []struct{ name, data string }{
+			{"crcrlf", strings.ReplaceAll(src, "\n", "\r\r\n")},
+			{"lfcr", strings.ReplaceAll(src, "\n", "\n\r")},
+			{"mixed", mixed},
+			{"cr-last-byte", strings.TrimRight(src, "\n") + "\r"},
+		} {
+			out = append(out, corpus.Doc{Name: d.Format + "-" + v.name, Format: d.Format, Data: []byte(v.data), Valid: true})
+		}
+	}
+	return out
+}
+
 func run(c *core.Ctx) {
-	docs := corpus.All()
+	docs := append(corpus.All(), lineEndDocs()...)
 	pts := map[string]struct{}{}
 	check := func(d corpus.Doc, want string, sub string, cs Case, got string, size int) {
 		c.Traces++
